@@ -97,10 +97,16 @@ impl StampGen {
         } else if s.frac < 249 {
             s.counter = 0;
             s.frac += 1;
-        } else {
+        } else if s.secs < u32::MAX as u64 {
             s.counter = 0;
             s.frac = 0;
             s.secs += 1;
+        } else {
+            // the last representable stamp is taken (found by the coverage-guided engine: a base right below the end of
+            // the 32-bit range): continue from the start of the previous second instead of leaving the valid domain
+            s.counter = 0;
+            s.frac = 0;
+            s.secs -= 1;
         }
         s
     }
